@@ -1,10 +1,9 @@
 SPECIFICATION Spec
 CONSTANTS
-  MaxLeaves = 5
+  MaxLeaves = 8
   MaxUnits = 3
   MaxAppends = 3
-  MaxRemoves = 2
+  MaxRemoves = 3
   Stride = 16
-INVARIANTS TypeOK BoundariesOK NoLiveLeafGone FormsOK ProofsVerify
+INVARIANTS TypeOK BoundariesOK NoLiveLeafGone
 PROPERTIES CommittedStutter WorkIsPrivate
-ACTION_CONSTRAINT OrderedRemoves
